@@ -6,3 +6,9 @@ import CompmechVerif.Props.C04
 #print axioms Compmech.Panel.C04.kMy1y2_entry_cpanel_partial
 #print axioms Compmech.Panel.C04.kM_entry_kpanel_partial
 #print axioms Compmech.Panel.C04.kMy1y2_entry_kpanel_partial
+#print axioms Compmech.Panel.C04.kM_symm_plate
+#print axioms Compmech.Panel.C04.kMy1y2_symm_plate
+#print axioms Compmech.Panel.C04.kM_symm_cpanel
+#print axioms Compmech.Panel.C04.kMy1y2_symm_cpanel
+#print axioms Compmech.Panel.C04.kM_symm_kpanel
+#print axioms Compmech.Panel.C04.kMy1y2_symm_kpanel
